@@ -288,6 +288,7 @@ fn inline_job(case: &InlineCase, lines: Vec<String>) -> Job {
                 .filter_map(|(i, f)| f.fault.map(|k| (format!("{}.tex", file_name(i)), k)))
                 .collect(),
             fs_write_faults: vec![],
+            file_updates: vec![],
         },
         clock: Clock::default(),
         real_state: false,
@@ -904,6 +905,7 @@ fn stream_job(case: &StreamCase) -> (Job, Vec<(usize, usize)>) {
                 .filter_map(|(i, (_, _, f))| f.map(|k| (stream_file_disk(i), k)))
                 .collect(),
             fs_write_faults: vec![],
+            file_updates: vec![],
         },
         clock: Clock::default(),
         real_state: false,
